@@ -18,9 +18,11 @@ import time
 VERIF = os.path.dirname(os.path.dirname(os.path.abspath(__file__)))
 REPO = os.environ.get('VERIF_REPO', '/repo')
 REPO_SRC = os.path.join(REPO, 'src')
-OUT = os.path.join(VERIF, 'out')
+# VERIF_OUT_DIR / VERIF_EVIDENCE_DIR: scratch and evidence locations of a side run (seeded changes tested on a scratch clone in parallel);
+# the registered commands never set them
+OUT = os.environ.get('VERIF_OUT_DIR', os.path.join(VERIF, 'out'))
 SPEC = os.path.join(VERIF, 'spec')
-EVIDENCE = os.path.join(VERIF, 'evidence')
+EVIDENCE = os.environ.get('VERIF_EVIDENCE_DIR', os.path.join(VERIF, 'evidence'))
 KNOWN = os.path.join(VERIF, 'known_findings.json')
 PYENV = '/root/.pyenv/versions'
 GUARD = 'PYMINIFY_VERIF'
